@@ -161,7 +161,9 @@ class ZeroconfPairing(AbstractPairing):
 
         super()._async_description_update(description)
 
-        if not description:
+        if not description or self._shutdown:
+            # After shutdown the description is no longer stored so
+            # there is no endpoint to follow any more.
             return
 
         endpoint_changed = False
